@@ -41,7 +41,14 @@ def reference(gaf, fasta, tmp):
     """the single-core file, through the real multiprocessing"""
     from gaftools.cli.realign import run_realign
     out = os.path.join(tmp, "ref.out")
-    run_realign(gaf, DATA + "smallgraph.gfa", fasta, output=out, cores=1)
+    try:
+        with watchdog(120):
+            run_realign(gaf, DATA + "smallgraph.gfa", fasta, output=out, cores=1)
+    except BaseException as e:  # noqa: a hang (ImplHang) or crash of the single-core run is itself the finding
+        import multiprocessing
+        for ch in multiprocessing.active_children():
+            ch.kill()
+        return "failed: %s: %s" % (type(e).__name__, e)
     return open(out).read().splitlines()
 
 
@@ -362,6 +369,8 @@ def long_record_runs(ck, tmp):
               ("long-in-the-middle", 2, 2, [False, True, False, False, True, False, False]),
               ("long-read-short-alignment", 2, 2, [False, "partial", False, True, "partial"])]
     for tag, bs, cores, kinds in shapes:
+        if ck.violations:
+            break
         recs = [rec("lr%d" % i, k) for i, k in enumerate(kinds)]
         gaf = os.path.join(tmp, "long.gaf")
         fa = os.path.join(tmp, "long.fa")
@@ -375,7 +384,7 @@ def long_record_runs(ck, tmp):
             os.environ["GAFTOOLS_VERIF_BATCH_SIZE"] = str(bs)
             out = os.path.join(tmp, "long.out%d" % c)
             try:
-                with watchdog(240):
+                with watchdog(120):
                     tool("realign", gaf=gaf, graph=gfa, fasta=fa, output=out, cores=c)
                 outs[c] = open(out).read().splitlines()
             except BaseException as e:  # noqa
@@ -418,6 +427,8 @@ def real_runs(ck, prop, tmp, inputs, n):
         raise Watchdog()
 
     for it in range(n):
+        if len(ck.violations) > 2:
+            break
         nrec = rng.choice([3, 4, 5])
         bs = rng.choice([1, 2])
         cores = rng.choice([1, 2, 3])
@@ -566,6 +577,10 @@ def main(prop):
             if nrec not in inputs:
                 gaf, fasta = make_input(tmp, nrec)
                 inputs[nrec] = (gaf, fasta, reference(gaf, fasta, tmp))
+                if isinstance(inputs[nrec][2], str):
+                    ck.violation("realign with one core and real processes on %d fault-free records: %s" % (nrec, inputs[nrec][2]),
+                                 {"records": nrec, "cores": 1, "outcome": inputs[nrec][2]})
+                    return ck.finish()
         # 1. exhaustive: every schedule (stutter-reduced) of 2 workers x 1 record, for both copies of the collector loop
         limit = 6000 if quick else 300000
         scopes = []
@@ -606,9 +621,13 @@ def main(prop):
             if len(ck.violations) > 5:
                 break
         flush_model(ck)
-        real_runs(ck, prop, tmp, inputs, 4 if quick else 80)
-        if prop == "C11":
+        # the runs with real processes are slow when the tool hangs (every hang costs a watchdog period): they are skipped once
+        # a failing input has been found
+        if not ck.violations:
+            real_runs(ck, prop, tmp, inputs, 4 if quick else 80)
+        if prop == "C11" and not ck.violations:
             default_batch_runs(ck, tmp, [2] if quick else [2, 3, 4])
+        if prop == "C11" and not ck.violations:
             long_record_runs(ck, tmp)
     finally:
         os.environ.pop("GAFTOOLS_VERIF_BATCH_SIZE", None)
